@@ -25,7 +25,8 @@ func init() { areas["mem"] = runMem }
 
 type memTracer struct{ peak int }
 
-func (t *memTracer) CaptureStart(*vm.EVM, common.Address, common.Address, bool, []byte, uint64, *big.Int) {}
+func (t *memTracer) CaptureStart(*vm.EVM, common.Address, common.Address, bool, []byte, uint64, *big.Int) {
+}
 func (t *memTracer) CaptureState(env *vm.EVM, pc uint64, op vm.OpCode, gas, cost uint64, scope *vm.ScopeContext, rData []byte, depth int, err error, loc common.Location) {
 	if scope != nil && scope.Memory != nil && scope.Memory.Len() > t.peak {
 		t.peak = scope.Memory.Len()
